@@ -751,6 +751,12 @@ fn c04_post(mut items: Vec<Item>) -> Vec<Item> {
                     if (k + seed) % 2 == 0 {
                         tweak(f, k + seed / 2);
                     }
+                    // a Swift type override does not switch optionality off
+                    // (only on fields that are not Option themselves: whether an override replaces the `?` of an Option<T>
+                    // as well is the override's business; the `?` a bare default adds is typeshare's)
+                    if (k + seed) % 3 == 0 && !matches!(f.ty.peel(), Ty::Opt(_)) {
+                        f.type_override = Some(("swift".to_string(), "Date".to_string()));
+                    }
                 }
             }
             Kind::Enum { variants, .. } => {
@@ -874,7 +880,13 @@ fn c04_oracle(ctx: &Ctx) -> Vec<Violation> {
                     };
                 }
                 let env = tycmp::TyEnv { lang: ctx.lang, cfg: ctx.cfg, params: s.params, renames: &renames, scala_aliases: &ctx.file().helper_aliases };
-                if let Err(rel) = tycmp::cmp(&env, inner_rust, obs) {
+                // a type override for this very language replaces the translated type (the marker rules above still apply)
+                let overridden_here = f.type_override.as_ref().map(|(l, _)| l == ctx.lang.name()).unwrap_or(false);
+                if overridden_here {
+                    if ctx.counting {
+                        ctx.run.label(&format!("c04/overridden-type/{}/{}", ctx.l(), dc));
+                    }
+                } else if let Err(rel) = tycmp::cmp(&env, inner_rust, obs) {
                     // capacity / category of leaves is C05's subject; here only the shape under the marker matters
                     if rel.contains("shape:") || rel.contains("arity") || rel.contains("name:") {
                         out.push(Violation::new(
